@@ -51,7 +51,9 @@ def big_fills():
     """fills of 64 KiB and more at every alignment class: a bulk path that is switched on by the LENGTH and aligns the destination by hand"""
     out = []
     shapes = [("fill_bytes", "u8", 3, 65536), ("fill_bytes", "u8", 5, 100003), ("fill_bytes_uninit", "u8", 1, 65535), ("fill_bytes", "u8", 0, 65537), ("fill_bytes", "u8", 8, 70001),
-              ("fill_bytes", "u16", 2, 40000), ("read", "u8", 5, 66000), ("read_exact", "u8", 7, 65543), ("fill_bytes", "u32", 4, 20001), ("fill_bytes", "u8", 15, 131077)]
+              ("fill_bytes", "u16", 2, 40000), ("read", "u8", 5, 66000), ("read_exact", "u8", 7, 65543), ("fill_bytes", "u32", 4, 20001), ("fill_bytes", "u8", 15, 131077),
+              # element sizes that divide neither 4096 nor 65536: a typed wrapper that splits big requests "on element boundaries" ends its chunks inside a word
+              ("fill_bytes", "a3u8", 1, 1400), ("fill_bytes_uninit", "a5u32", 4, 210), ("fill_bytes", "a3u8", 0, 30000), ("fill_bytes", "a5u32", 8, 5000), ("fill_bytes_uninit", "a3u8", 2, 21846)]
     for gi, gen in enumerate(("xoshiro", "splitmix", "wyrand", "chacha12")):
         for si, (api, elem, off, count) in enumerate(shapes):
             if (gi + si) % 2 == 0 or gen == "xoshiro":
